@@ -30,6 +30,8 @@ namespace pbt
     bool flip() { return pick(2) == 1; }
     // true with probability ~ num/den
     bool chance(uint32_t num, uint32_t den) { return pick(den) < num; }
+    // like chance(), but false on an exhausted tape (use for choices that make a case bigger)
+    bool rare(uint32_t num, uint32_t den) { return pick(den) >= den - num; }
     bool exhausted() const { return pos >= cells.size(); }
     size_t consumed() const { return pos; }
     size_t size() const { return cells.size(); }
